@@ -310,6 +310,8 @@ def verify_contract(cdef: ContractDef, tier="quick") -> dict:
             raise Unsupported("target is a class; name the method")
         module, _, qual = cdef.target.partition(":")
         func = VFunc(node, mod, None, qual, (module, cls.name) if cls is not None else None)
+        if cls is None and "." not in qual and getattr(node, "decorator_list", None):
+            func = eng.decorated_func(mod, node, qual)
         from .lib import _number_loops
 
         _number_loops(node, cdef.target)
@@ -331,6 +333,8 @@ def verify_contract(cdef: ContractDef, tier="quick") -> dict:
                     ok = any(eng.is_subclass(o.exc.cls, a) for a in c.allowed_raises)
                     if not ok:
                         obls.append(("raises", f"raises-only:{o.exc.cls}", s.pc, z3.BoolVal(False), res))
+                    else:
+                        obls.append(("raises", "raised-classes-within-declared-set", s.pc, z3.BoolVal(True), res))
                 for label, fn in c.exc_posts:
                     obls.append(("post", label, s.pc, fn(res), res))
             else:
